@@ -202,7 +202,7 @@ Section Cmd.
 End Cmd.
 
 (* ---- sticky answers: clear_mac_commands(true) keeps exactly the whole DlChannelAns / RXParamSetupAns / RXTimingSetupAns *)
-From LoraV Require Import Proofs.FieldProofs.
+From LoraV Require Import Proofs.SeqBuildProofs.
 Definition sticky (cid : N) : bool := (cid =? 0x0A) || (cid =? 0x05) || (cid =? 0x08).
 
 Theorem retain_acks_spec (cmds : list (N * list N)) :
